@@ -242,10 +242,25 @@ func deepDirtyBuffer() *rjson.Buffer {
 // on data[:len]" oracle is applied: bytes that would plausibly continue any token.
 var bait = []byte(`\udc00\udc00"5e5]}],"k":1}0123456789abcdef"]}` + "\x00\x00 \n")
 
-// withBait returns a copy of d that has the bait bytes in its spare capacity (len unchanged).
+// withBait returns a copy of d that has bait bytes in its spare capacity (len unchanged). When d
+// ends inside a literal, the bait begins with the rest of that literal (an over-read through the
+// capacity then COMPLETES the token: seeded change C13r5-m1), otherwise with the generic bait.
 func withBait(d []byte) []byte {
-	big := make([]byte, len(d), len(d)+len(bait))
+	lead := ""
+	for _, lit := range [...]string{"null", "true", "false"} {
+		for k := len(lit) - 1; k >= 1; k-- {
+			if len(d) >= k && string(d[len(d)-k:]) == lit[:k] {
+				lead = lit[k:] + ","
+				break
+			}
+		}
+		if lead != "" {
+			break
+		}
+	}
+	big := make([]byte, len(d), len(d)+len(lead)+len(bait))
 	copy(big, d)
-	copy(big[len(d):cap(big)], bait)
+	n := copy(big[len(d):cap(big)], lead)
+	copy(big[len(d)+n:cap(big)], bait)
 	return big
 }
